@@ -103,7 +103,8 @@ class Report:
         for rule, ok in self.fixture.items():
             if not ok:
                 violations.append({"rule": rule, "key": "FIXTURE", "ok": False, "where": "", "detail": "rule %s did not fire on its bad fixture (or fired on the good twin): checker self-test failed" % rule})
-        os.makedirs(os.path.join(VERIF, "evidence", "replay"), exist_ok=True)
+        EVID = os.environ.get("VERIF_EVIDENCE", os.path.join(VERIF, "evidence"))
+        os.makedirs(os.path.join(EVID, "replay"), exist_ok=True)
         lines = []
         seen = set()
         for o, what in known_hits:
@@ -114,7 +115,7 @@ class Report:
             lines.append("KNOWN-FINDING: property=%s %s %s %s :: %s" % (self.prop, o["rule"], o["key"], o["where"], what))
         for o in violations:
             safe = "".join(c if c.isalnum() or c in "-_." else "_" for c in ("%s-%s" % (o["rule"], o["key"])))[:150]
-            rp = os.path.join(VERIF, "evidence", "replay", "%s-%s.json" % (self.prop, safe))
+            rp = os.path.join(EVID, "replay", "%s-%s.json" % (self.prop, safe))
             with open(rp, "w") as fh:
                 json.dump({"property": self.prop, **o}, fh, indent=1)
             lines.append("VIOLATION property=%s replay=%s" % (self.prop, rp))
@@ -148,6 +149,6 @@ class Report:
             "wall_s": round(time.time() - self.t0, 3),
             "violations": len(violations),
         }
-        with open(os.path.join(VERIF, "evidence", "%s.json" % self.prop), "w") as fh:
+        with open(os.path.join(EVID, "%s.json" % self.prop), "w") as fh:
             json.dump(ev, fh, indent=1, default=str)
         return lines, (1 if violations else 0)
